@@ -290,6 +290,22 @@ fn gen_delegation_method<'s>(
         },
     });
     let core = &generic_idents.crate_idents.core;
+    // The method's own type and const parameters are passed on explicitly: they cannot always be inferred
+    let method_generic_args: Vec<_> = fn_sig
+        .generics
+        .params
+        .iter()
+        .filter_map(|param| match param {
+            syn::GenericParam::Type(type_param) => Some(&type_param.ident),
+            syn::GenericParam::Const(const_param) => Some(&const_param.ident),
+            syn::GenericParam::Lifetime(_) => None,
+        })
+        .collect();
+    let turbofish = if method_generic_args.is_empty() {
+        None
+    } else {
+        Some(quote! { ::<#(#method_generic_args),*> })
+    };
     // `self` resolves hygienically: it has to carry the span of the receiver it refers to
     let self_token = match fn_sig.inputs.first() {
         Some(syn::FnArg::Receiver(receiver)) => receiver.self_token,
@@ -302,8 +318,7 @@ fn gen_delegation_method<'s>(
                 trait_fn,
                 sig: fn_sig.clone(),
                 call: quote! {
-                    // TODO: pass additional generic arguments(?)
-                    <#impl_t::Target as #impl_trait_ident<#impl_t>>::#fn_ident(#self_token, #(#arguments),*)
+                    <#impl_t::Target as #impl_trait_ident<#impl_t>>::#fn_ident #turbofish (#self_token, #(#arguments),*)
                 },
             }
         }
@@ -320,13 +335,13 @@ fn gen_delegation_method<'s>(
                 RefDelegate::AsRef => {
                     quote! {
                         <#impl_t as ::#core::convert::AsRef<dyn #impl_trait_ident<#impl_t> #plus_sync>>::as_ref(&*#self_token)
-                            .#fn_ident(#self_token, #(#arguments),*)
+                            .#fn_ident #turbofish (#self_token, #(#arguments),*)
                     }
                 }
                 RefDelegate::Borrow => {
                     quote! {
                         <#impl_t as ::#core::borrow::Borrow<dyn #impl_trait_ident<#impl_t> #plus_sync>>::borrow(&*#self_token)
-                            .#fn_ident(#self_token, #(#arguments),*)
+                            .#fn_ident #turbofish (#self_token, #(#arguments),*)
                     }
                 }
             };
@@ -341,14 +356,14 @@ fn gen_delegation_method<'s>(
             trait_fn,
             sig: fn_sig.clone(),
             call: quote! {
-                #self_token.as_ref().as_ref().#fn_ident(#(#arguments),*)
+                #self_token.as_ref().as_ref().#fn_ident #turbofish (#(#arguments),*)
             },
         },
         (None, Some(SpanOpt(Delegate::ByRef(RefDelegate::Borrow), _))) => DelegatingMethod {
             trait_fn,
             sig: fn_sig.clone(),
             call: quote! {
-                #self_token.as_ref().borrow().#fn_ident(#(#arguments),*)
+                #self_token.as_ref().borrow().#fn_ident #turbofish (#(#arguments),*)
             },
         },
         _ => {
@@ -365,11 +380,11 @@ fn gen_delegation_method<'s>(
                 call: if takes_self_by_value {
                     // a `self` method cannot be called through the borrow from `as_ref()`
                     quote! {
-                        #self_token.into_inner().#fn_ident(#(#arguments),*)
+                        #self_token.into_inner().#fn_ident #turbofish (#(#arguments),*)
                     }
                 } else {
                     quote! {
-                        #self_token.as_ref().#fn_ident(#(#arguments),*)
+                        #self_token.as_ref().#fn_ident #turbofish (#(#arguments),*)
                     }
                 },
             }
